@@ -125,7 +125,7 @@ def handle (st : DState) (toks : List String) : DState × String :=
     | _, _ => (st, "bad-op")
   | ["wf", sv, dv, n] =>
     match nats [sv, dv, n] with
-    | some [sv, dv, n] => (st, s!"wf {if st.g.inBounds then 1 else 0} {if st.g.wfVars sv dv n then 1 else 0}")
+    | some [sv, dv, n] => (st, s!"wf {if st.g.inBounds then 1 else 0} {if st.g.wfVarsExact sv dv n then 1 else 0}")
     | _ => (st, "bad-op")
   | "call" :: dir :: kind :: clamp :: nin :: rest =>
     match parseDir dir, parseKind kind, nin.toNat? with
